@@ -7,10 +7,13 @@ Decides: (a) WalCleaner::cleanup_up_to: {conservative_mode == false edge, WalArc
 (b) delete-set is a subset of archive-set: the cleaner's deletion loop and the archiver's loop select files by the same name constants ("wal-", ".log") and the same guard id < keep_from, and the cleaner
 hands its own bound on unchanged. (c) WalArchiver::archive_log returns Ok only on the Ok edges of WalArchive::from_wal_file and write_to_file; write_to_file returns Ok only after write_all and sync_all succeeded.
 (d) recovery order: WalArchiveRecovery::recover_all decodes in the order returned by list_archives, which returns Ok(list) only after sorting; archive file names start with the zero-padded log id.
+(e) WalArchive::from_wal_file reads the WHOLE file or fails: the `lines()` iterator reaches the loop through order- and count-preserving adaptors only (enumerate; not map_while / take_while /
+flatten / filter_map / take ...), every line's io::Result is tested and its Err edge leaves the function (an unreadable line fails the archive, so nothing is deleted), the loop has no other exit,
+and every line that parses is pushed (the only skips are the blank-line and the JSON-error edges).
 Noted, not decided: an unparsable WAL line is skipped by from_wal_file (the archive then lacks it); a decode error in recover_all skips that archive; losslessness of the MessagePack re-encoding; torn last lines.
 """
-FLOOR = 4
-REQUIRED = ["C19.a", "C19.b", "C19.c", "C19.d"]
+FLOOR = 5
+REQUIRED = ["C19.a", "C19.b", "C19.c", "C19.d", "C19.e"]
 
 
 def str_const_args(body):
@@ -201,3 +204,54 @@ def run(ctx):
 
     ctx.note("WalArchive::from_wal_file logs and skips an unparsable WAL line: the archive then lacks it while the file is deleted (fault clause, not armed)")
     ctx.note("WalArchiveRecovery::recover_all logs and skips an archive that fails to decode (fault clause, not armed)")
+
+    def e_(inst):
+        b = F.fn("WalArchive::from_wal_file")
+        ln = one(b, r"BufRead::lines$")
+        hs = [h for h in for_headers(b) if ln.dest[0] in deep_locals(b, h.args[0])]
+        if len(hs) != 1:
+            raise AnchorMissing("the for loop over reader.lines() in from_wal_file (%d)" % len(hs))
+        h = hs[0]
+        chain_locals = deep_locals(b, h.args[0])
+        chain = [c_ for c_ in b.calls if not c_.cleanup and c_.dest and c_.dest[0] in chain_locals and c_.bb != ln.bb and c_.args and ln.dest[0] in deep_locals(b, c_.args[0])]
+        names = [c_.nname for c_ in chain]
+        inst.sites = [sp(b, ln.bb), "adaptors: %s" % [n.split("::")[-1] for n in names]]
+        bad = []
+        OKAD = re.compile(r"Iterator::enumerate$|IntoIterator.*::into_iter$|Iterator::by_ref$|BufReader::.*new$|::new$")
+        for n in names:
+            if not OKAD.search(n):
+                bad.append(("lossy-adaptor:%s" % n.split("::")[-1], "the lines of the WAL file reach the archive loop through %s, which can drop or cut off lines: a partial archive is then written as a success" % n, None))
+        # the io::Result of each line is tested, and Err leaves the function
+        some = variant_edge(b, h, "Some")
+        inloop = b.reach(0, src_edges=some, cut_blocks=[h.bb])
+        brs = [c_ for c_ in b.find_calls(r"Try>::branch$") if c_.bb in inloop and h.dest[0] in wide_all(b, c_.args[0])]
+        if not brs:
+            if not any(x.startswith("lossy-adaptor") for x, _, _ in bad):
+                bad.append(("line-error-untested", "the io::Result of a line is not tested with `?`", None))
+        else:
+            br = brs[0]
+            be = variant_edge(b, br, "Break")
+            esc = b.reach(0, src_edges=be, cut_blocks=[h.bb])
+            if not any(x in esc for x in b.exits()) or h.bb in b.reach(0, src_edges=be):
+                bad.append(("line-error-swallowed", "an unreadable line does not make from_wal_file return Err", None))
+            # no other way out of the loop than exhaustion or that error return
+            seen = b.reach(0, src_edges=some, cut_blocks=[h.bb], cut_edges=be)
+            if any(x in seen for x in b.exits()):
+                bad.append(("loop-early-exit", "the archive loop can stop before the file is exhausted (break / return inside the loop)", None))
+            # every parsed line is pushed
+            js = one(b, r"serde_json::from_str$")
+            push = [c_ for c_ in b.find_calls(r"Vec::push$") if c_.bb in inloop]
+            if len(push) != 1:
+                raise AnchorMissing("entries.push in the loop (%d)" % len(push))
+            okj = [e_ for e_, v in ok_edges(b, js) if v == "Ok"]
+            errj = variant_edge(b, js, "Err")
+            emp = [c_ for c_ in b.find_calls(r"str::is_empty$") if c_.bb in inloop]
+            allowed = list(errj) + list(be)
+            for c_ in emp:
+                allowed += bool_result_edge(b, c_, True)
+            w = skipped_iteration(b, h, [push[0].bb], allowed_edges=allowed)
+            if w:
+                bad.append(("parsed-line-not-archived", "a line can complete an iteration without being pushed although it is neither blank nor unparsable", None))
+            inst.sites += [sp(b, br.bb), sp(b, js.bb), sp(b, push[0].bb)]
+        return bad
+    ctx.run("C19.e", "K9 LOOP", "WalArchive::from_wal_file", "the archive is built from every line of the log, or not at all", e_)
